@@ -149,7 +149,7 @@ prop("C18", quick={"runs": 12000}, thorough={"runs": 100000000, "budget_s": 600}
      "named differently; other half: backend workloads (sequential with ExpireAll/DeleteAll, concurrent without). At quiescence the metric sums are "
      "compared with the harness's own event log. Non-trivial: at least one operation.",
      rules=["C18.build / failed / refreshed (frontend)", "C18.write / delete / reads (hit+miss+expired = non-skipped reads + entries touched by ExpireAll)"],
-     probes=["refresh_counted", "failed_build_counted", "expireAll_counted", "deleteAll_counted", "concurrent_metrics_checked"])
+     probes=["refresh_counted", "failed_build_counted", "expireAll_counted", "deleteAll_counted", "concurrent_metrics_checked", "deleteAll_concurrent_with_writes", "expireAll_concurrent_with_writes"])
 TR_RULE = "Root-driven scenarios drawn from the seeded PRNG; the simulator owns the byte stream / round-tripper / deleters and the iteration order of maps and sync.Map (so every Walk order the source can produce is sampled). "
 prop("C13", quick={"runs": 6000}, thorough={"runs": 100000000, "budget_s": 600},
      rule=TR_RULE + "Source caches with 0-300 entries (keys of differing lengths incl. empty and binary, values nil / zero / populated structs / maps / pointers, "
